@@ -186,8 +186,9 @@ class G:
     def c_if(self, ctx):
         c2 = dict(ctx, depth=ctx['depth'] + 1)
         lines = [f'IF {self.cond()} THEN'] + self.body(c2, self.rng.randint(0, 2))
-        for _ in range(self.rng.randint(0, 2)):
-            lines += [f'ELSEIF {self.cond()} THEN'] + self.body(c2, self.rng.randint(0, 2))
+        for _ in range(self.rng.randint(0, 3)):
+            ec = self.rng.choice([f'a% = {self.t()}', f'a% < {self.t()}', f'b% + a% = {self.t()}'])
+            lines += [f'ELSEIF {ec} THEN'] + self.body(c2, self.rng.randint(0, 2))
         if self.rng.random() < 0.5:
             lines += ['ELSE'] + self.body(c2, self.rng.randint(0, 2))
         return lines + ['END IF']
@@ -325,6 +326,42 @@ class G:
         return '\n'.join(lines) + '\n'
 
 
+def layout(src, variant, key):
+    """the same program with another layout: 'blanks' = trailing blanks, leading
+    indentation and blank-only lines (spaces only); 'tabs' = leading / trailing
+    tabs.  Label and DATA lines are left alone."""
+    if variant == 'plain':
+        return src
+    rng = random.Random('layout-' + key)
+    out = []
+    forced = False
+    for line in src.split('\n')[:-1]:
+        u = line.strip().upper()
+        if u.endswith(':') or u.startswith('DATA'):
+            out.append(line)
+            continue
+        if variant == 'blanks':
+            if rng.random() < 0.5:
+                line = ' ' * rng.choice([1, 2, 4]) + line
+            if not forced or rng.random() < 0.5:
+                line = line + ' ' * rng.choice([1, 3])
+                forced = True
+            out.append(line)
+            if rng.random() < 0.2:
+                out.append(rng.choice(['', '    ']))
+        else:
+            if rng.random() < 0.5:
+                line = '\t' + line
+            if not forced or rng.random() < 0.3:
+                line = line + '\t'
+                forced = True
+            out.append(line)
+    return '\n'.join(out) + '\n'
+
+
+VARIANTS = ('plain', 'plain', 'blanks', 'blanks', 'blanks', 'tabs')
+
+
 def tags_of(src):
     out = {}
     for i, line in enumerate(src.split('\n')):
@@ -378,6 +415,21 @@ KINDS = {
     'func': ['b% = fq%(a%)'],
     'onlyconst_if': ['IF a% = 0 THEN', 'CONST kz = 1', 'END IF'],
     'onlylabel_while': ['WHILE a% > 30000', 'lz:', 'WEND'],
+    'elseif3_first': ['IF a% < {t} THEN', 'PRINT {t}', 'ELSEIF a% = {t} THEN', 'PRINT {t}',
+                      'ELSEIF a% = {t} THEN', 'PRINT {t}', 'ELSEIF a% = {t} THEN', 'PRINT {t}', 'END IF'],
+    'elseif3_third': ['IF a% = {t} THEN', 'PRINT {t}', 'ELSEIF a% = {t} THEN', 'PRINT {t}',
+                      'ELSEIF a% < {t} THEN', 'PRINT {t}', 'ELSEIF a% = {t} THEN', 'PRINT {t}', 'END IF'],
+    'elseif3_else': ['IF a% = {t} THEN', 'PRINT {t}', 'ELSEIF a% = {t} THEN', 'ELSEIF a% = {t} THEN',
+                     'PRINT {t}', 'ELSEIF a% = {t} THEN', 'PRINT {t}', 'ELSE', 'PRINT {t}', 'END IF'],
+    'elseif2_second': ['IF a% = {t} THEN', 'PRINT {t}', 'ELSEIF a% = {t} THEN', 'PRINT {t}',
+                       'ELSEIF a% < {t} THEN', 'PRINT {t}', 'END IF'],
+    'trap_elseif1': ['DIM zq(3) AS INTEGER', 'IF a% = {t} THEN', 'PRINT {t}', 'ELSEIF zq(a% + {t}) = 1 THEN',
+                     'PRINT {t}', 'ELSEIF a% = {t} THEN', 'PRINT {t}', 'ELSEIF a% = {t} THEN', 'END IF'],
+    'trap_elseif2': ['DIM zq(3) AS INTEGER', 'IF a% = {t} THEN', 'PRINT {t}', 'ELSEIF a% = {t} THEN',
+                     'PRINT {t}', 'ELSEIF zq(a% + {t}) = 1 THEN', 'PRINT {t}', 'ELSEIF a% = {t} THEN', 'END IF'],
+    'trap_elseif3': ['DIM zq(3) AS INTEGER', 'IF a% = {t} THEN', 'PRINT {t}', 'ELSEIF a% = {t} THEN',
+                     'ELSEIF a% = {t} THEN', 'PRINT {t}', 'ELSEIF zq(a% + {t}) = 1 THEN', 'PRINT {t}',
+                     'ELSE', 'PRINT {t}', 'END IF'],
     'trap_overflow': ['c% = a% + {t}'],
     'trap_div': ['c& = {t} \\ (a% - a%)'],
 }
@@ -497,8 +549,17 @@ def check_tags(ctx, case, raw):
     generator put on that line"""
     src = case['src']
     tags = tags_of(src)
-    lines = src.split('\n')
+    lines = raw.get('src_view', src).split('\n')
     n = 0
+    for li in raw.get('lits', []):
+        want = tags.get(li['val'])
+        if want is None or li['line'] is None:
+            continue        # not a tag of the source / uncovered (reported by the oracle)
+        n += 1
+        if li['line'] != want or str(li['val']) not in li['extract']:
+            ctx.report(f"C11/literal-line-wrong({li['cls']})",
+                       {'src': src, 'level': case['level'], 'tag': li['val'], 'expected_line': want,
+                        'lit': li}, True)
     for o in raw['obs']:
         if o['dev'] != 'terminal' or o['op'] not in ('print', 'input') or not o['text']:
             continue
@@ -639,12 +700,16 @@ def main(tier, seed):
             for pos in POSITIONS:
                 src = family_program(kind, cx, pos)
                 if src is not None:
-                    fam.append({'src': src, 'origin': f'family:{kind}/{cx}/{pos}', 'run': True,
+                    j = len(fam)
+                    var = VARIANTS[(j // 12 + j) % 6]
+                    src = layout(src, var, f'{kind}/{cx}/{pos}')
+                    ctx.bump('E_layout_' + var)
+                    fam.append({'src': src, 'origin': f'family:{kind}/{cx}/{pos}:{var}', 'run': True,
                                 'script': ['7'] * 8,
                                 'trap_tag': None})
     for f in fam:
         if 'trap_' in f['origin']:
-            m = re.search(r'(c% = a% \+ |c& = )(9\d{4})', f['src'])
+            m = re.search(r'(c% = a% \+ |c& = |zq\(a% \+ )(9\d{4})', f['src'])
             f['trap_tag'] = int(m.group(2)) if m else None
     if quick:
         fam = fam[seed % 12::12]
@@ -655,7 +720,7 @@ def main(tier, seed):
         rng = random.Random(f'c11-{i}')
         g = G(rng)
         trap = [None, None, 'div', 'overflow', 'index', 'resume'][i % 6]
-        src = g.program(rng.randint(2, 7), trap)
+        src = layout(g.program(rng.randint(2, 7), trap), VARIANTS[(i // 6 + i) % 6], f'gen{i}')
         tags = tags_of(src)
         trap_tag = None
         if trap in ('div', 'overflow', 'index'):
@@ -669,7 +734,7 @@ def main(tier, seed):
             cases.append(dict(pr, level=level, max_ticks=20000))
     ctx.rule.append(f'E: {ncorpus} corpus programs{" (every 3rd, phase = seed)" if quick else ""}, '
                     f'{len(fam)} programs of the family statement-kind ({len(KINDS)}) x context '
-                    f'({len(CONTEXTS)}) x position (4){" (every 12th, phase = seed)" if quick else ""}, '
+                    f'({len(CONTEXTS)}) x position (4){" (every 12th, phase = seed)" if quick else ""}, each in one of the layouts plain / trailing blanks+indentation+blank lines / tabs (2:3:1), '
                     f'{ngen} generated programs (fixed family, index-seeded), each at levels 0,1,2 with -g; '
                     f'non-trivial = distinct (source, level) that compiled')
     # one dispatch for everything that runs repository code (worker start-up =
